@@ -309,19 +309,17 @@ func funcName(fd *ast.FuncDecl) string {
 }
 
 // find the occ-th expression assigned to variable v (or returned) inside fd, in source order
-func find(fd *ast.FuncDecl, v string, occ int) ast.Expr {
-	var found ast.Expr
-	n := 0
+// findAll lists, in source order, every expression the anchor description (v) can refer to; the
+// index of an `ifN` anchor is folded into the list position.
+func findAll(fd *ast.FuncDecl, v string) []ast.Expr {
+	var all []ast.Expr
 	ast.Inspect(fd, func(nd ast.Node) bool {
-		if found != nil {
-			return false
-		}
 		switch s := nd.(type) {
 		case *ast.AssignStmt:
 			for i, lhs := range s.Lhs {
 				if exprString(lhs) == v && i < len(s.Rhs) && len(s.Lhs) == len(s.Rhs) {
-					if n == occ {
-						found = s.Rhs[i]
+					{
+						found := s.Rhs[i]
 						if s.Tok != token.ASSIGN && s.Tok != token.DEFINE {
 							// x op= y  ==>  x op y
 							op := map[token.Token]token.Token{token.ADD_ASSIGN: token.ADD, token.SUB_ASSIGN: token.SUB,
@@ -330,17 +328,14 @@ func find(fd *ast.FuncDecl, v string, occ int) ast.Expr {
 								token.SHL_ASSIGN: token.SHL, token.SHR_ASSIGN: token.SHR, token.XOR_ASSIGN: token.XOR}[s.Tok]
 							found = &ast.BinaryExpr{X: lhs, Op: op, Y: s.Rhs[i]}
 						}
+						all = append(all, found)
 					}
-					n++
 				}
 			}
 		case *ast.ValueSpec:
 			for i, nm := range s.Names {
 				if nm.Name == v && i < len(s.Values) {
-					if n == occ {
-						found = s.Values[i]
-					}
-					n++
+					all = append(all, s.Values[i])
 				}
 			}
 		case *ast.IfStmt:
@@ -348,10 +343,7 @@ func find(fd *ast.FuncDecl, v string, occ int) ast.Expr {
 				idx := -1
 				fmt.Sscanf(v, "if%d", &idx)
 				if idx >= 0 {
-					if n == idx {
-						found = s.Cond
-					}
-					n++
+					all = append(all, s.Cond)
 				}
 			}
 		case *ast.CallExpr:
@@ -362,10 +354,7 @@ func find(fd *ast.FuncDecl, v string, occ int) ast.Expr {
 					k := -1
 					fmt.Sscanf(parts[2], "%d", &k)
 					if k >= 0 && k < len(s.Args) {
-						if n == occ {
-							found = s.Args[k]
-						}
-						n++
+						all = append(all, s.Args[k])
 					}
 				}
 			}
@@ -374,16 +363,45 @@ func find(fd *ast.FuncDecl, v string, occ int) ast.Expr {
 				idx := 0
 				fmt.Sscanf(v, "return%d", &idx)
 				if idx < len(s.Results) {
-					if n == occ {
-						found = s.Results[idx]
-					}
-					n++
+					all = append(all, s.Results[idx])
 				}
 			}
 		}
 		return true
 	})
-	return found
+	return all
+}
+
+// anchorIndex: position of the anchor in findAll's list (`ifN` carries it in its name)
+func anchorIndex(v string, occ int) int {
+	if strings.HasPrefix(v, "if") && !strings.HasPrefix(v, "ifx") {
+		idx := -1
+		fmt.Sscanf(v, "if%d", &idx)
+		return idx
+	}
+	return occ
+}
+
+// sameParams: does the candidate translate, and to a term over exactly the expected identifiers?
+func sameParams(a anchor, fd *ast.FuncDecl, e ast.Expr) bool {
+	if e == nil {
+		return false
+	}
+	t := &tr{a: a, seen: map[string]bool{}, fd: fd}
+	if strings.HasPrefix(a.Var, "if") {
+		t.cond(e)
+	} else {
+		t.expr(e)
+	}
+	if t.err != nil || len(t.params) != len(a.Params) {
+		return false
+	}
+	for _, p := range t.params {
+		if !t.expected(p) {
+			return false
+		}
+	}
+	return true
 }
 
 func main() {
@@ -419,8 +437,24 @@ func main() {
 		if f != nil {
 			for _, d := range f.Decls {
 				if fd, ok := d.(*ast.FuncDecl); ok && funcName(fd) == a.Func && fd.Body != nil {
-					e = find(fd, a.Var, a.Occ)
 					theFd = fd
+					cands := findAll(fd, a.Var)
+					want := anchorIndex(a.Var, a.Occ)
+					if want >= 0 && want < len(cands) {
+						e = cands[want]
+					}
+					// The position of an `if` / assignment among its peers moves when statements are added,
+					// removed or restructured around it. When the expected free identifiers are known and the
+					// candidate at the recorded position does not have exactly those, take the first candidate
+					// that does (a changed expression with the same identifiers still lands on the tie lemma).
+					if a.Params != nil && !sameParams(a, fd, e) {
+						for _, c := range cands {
+							if sameParams(a, fd, c) {
+								e = c
+								break
+							}
+						}
+					}
 				}
 			}
 		}
